@@ -7,17 +7,24 @@ before line k+1 (0 <= k <= number of lines):
       (N = 1 for disable-next-line)
   (3) a malformed pragma suppresses nothing and yields exactly one pragma error naming line k+1
 Both comment prefixes, rule ids and aliases, N in {1, 2, 5, beyond the end}.
+
+Second family (cases M:i): one to three pragma lines (several rules named in one pragma, in either
+order and with blanks after the commas; adjacent pragma lines; mixed kinds) checked against a general
+model of (1)-(3), and the fix-mode clause of "otherwise invisible":
+  (4) fix(d') keeps every pragma line once, unchanged and in order; fix(d') without its pragma lines
+      == fix(d); every pragma line still stands in front of the content line it stood in front of.
 """
 import re
 
 from vf import universe as U
 from vf.checks import parserlevel as PL
 from vf.prng import R as PR
+from vf.prng import mix
 
 PROPERTY = "C11"
 LEVEL = "exploration"
 BASELINE = "C11"
-REQUIRED_COUNTERS = ["cases_compared", "token_streams_compared", "failure_sets_compared", "suppressions_expected"]
+REQUIRED_COUNTERS = ["cases_compared", "token_streams_compared", "failure_sets_compared", "suppressions_expected", "fix_pairs_compared"]
 ASSUMPTIONS = [
     "documents that already contain pragma lines, do not tokenize, or crash a rule are skipped (counted)",
     "the default rule set plus md002/md043-free: every rule except the debug rule is enabled so that many (line, rule) pairs exist",
@@ -26,6 +33,8 @@ N_Z1 = 5097
 N_Z3 = 6000
 PER_DOC = 12
 N_CASES = (N_Z1 + N_Z3) * PER_DOC
+PER_DOC_M = 4
+N_M = (N_Z1 + N_Z3) * PER_DOC_M
 MALFORMED = [
     ("<!-- pyml -->", "no-command"),
     ("<!-- pyml frobnicate md009-->", "unknown-command"),
@@ -43,13 +52,16 @@ def universe_hash():
 def plan(tier, seed, complete=False):
     if complete or tier == "thorough":
         idx = list(range(N_CASES))
+        midx = list(range(N_M))
     else:
         from vf.prng import R, mix
 
-        idx = R(mix("C11", seed)).sample(N_CASES, 3200)
+        idx = R(mix("C11", seed)).sample(N_CASES, 2400)
+        midx = R(mix("C11M", seed)).sample(N_M, 1200)
     return {
-        "items": [f"P:{i}" for i in idx],
-        "zones": {"(document, insertion point, pragma form) cases": {"universe": N_CASES, "run": len(idx)}},
+        "items": [f"P:{i}" for i in idx] + [f"M:{i}" for i in midx],
+        "zones": {"(document, insertion point, pragma form) cases": {"universe": N_CASES, "run": len(idx)},
+                  "(document, 1-3 pragma lines incl. multi-rule and adjacent ones; scan + fix) cases": {"universe": N_M, "run": len(midx)}},
         "exhaustive": False,
         "rule": "case i = document (raw corpus / calm tree) x insertion point (between any two lines: inside paragraphs, code blocks, containers) x pragma form "
         "(prefix <!-- / <!---, disable-next-line / disable-num-lines N, rule named by id or alias, named rule failing nearby or not, malformed forms); "
@@ -65,8 +77,8 @@ def replay_item(rp):
     return {"key": str(rp["case"]), "case": rp["detail"]["case"]}
 
 
-def case_doc(i):
-    d = i // PER_DOC
+def case_doc(i, per=PER_DOC):
+    d = i // per
     if d < N_Z1:
         return U.doc("Z1", d)
     return U.doc("Z3", d - N_Z1)
@@ -97,17 +109,23 @@ def _tok_key(t, shift_after=None):
 def run_items(items, job):
     from vf import app, pm
 
-    app.Sandbox(job["work"])
     tok = pm.make_tokenizer()
     allr = pm.all_rules()
     names = {}
     R = PL.Result()
     base_cache = {}
+    sb = app.Sandbox(job["work"])
+    ctx = {"app": app, "pm": pm, "tok": tok, "allr": allr, "names": names, "sb": sb, "fixcache": {}}
     for it in items:
         if isinstance(it, dict):
             key, ci = it["key"], int(str(it["case"]).split(":")[-1])
+            fam = str(it["case"]).split(":")[0]
         else:
             key, ci = it, int(it.split(":")[1])
+            fam = it.split(":")[0]
+        if fam == "M":
+            _run_multi(ctx, R, key, ci)
+            continue
         doc = case_doc(ci)
         R.evals += 1
         if "pyml" in doc.lower() or doc == "":
@@ -274,9 +292,246 @@ def run_items(items, job):
                 detail["pragma_errors"] = pe
             if supp or malformed:
                 R.distinct.add(PL.mix("C11", ci) & 0xFFFFFFFFFFFF)
+        if ci % 2 == 0 and kind2 == "tokens":
+            plines = [pragma] if not second else None
+            if second:
+                plines = [x for x in new_lines if "pyml" in x]
+            _fix_clause(ctx, R, dkey, doc, doc2, plines, v, detail, tag)
         R.see("pragma_forms", tag + ("/" + malformed if malformed else ""))
         if v:
             R.viol.append([key, ";".join(sorted(v)), detail])
         elif len(R.samples) < 2 and (supp or malformed):
             R.samples.append({"case": key, "pragma": pragma, "inserted_before_line": k + 1, "suppressed": supp, "doc": doc[:120]})
     return R.as_dict()
+
+
+# ---------------------------------------------------------------------------------- fix-mode clause
+_ALNUM = re.compile(r"[A-Za-z\u00c0-\uffff]+")  # letters only: list numbers are rewritten by MD029
+
+
+def _sig(line):
+    return "".join(_ALNUM.findall(line))
+
+
+def _next_content(lines, j, pset):
+    """alnum signature of the first line after index j that is neither blank, a pragma, nor marker-only"""
+    for x in lines[j + 1:]:
+        if x in pset:
+            continue
+        s = _sig(x)
+        if s:
+            return s
+    return None
+
+
+def _fix_clause(ctx, R, dkey, doc, doc2, plines, v, detail, tag):
+    """(4): the pragma lines survive a fix unchanged, in order, attached, and the rest is fix(d)."""
+    app, sb = ctx["app"], ctx["sb"]
+    fc = ctx["fixcache"]
+    if dkey not in fc:
+        if len(fc) > 64:
+            fc.clear()
+        sb.clear_files()
+        o, f = app.fix_text(sb, doc, only=ctx["allr"])
+        fc[dkey] = None if (app.fix_error_kind(o) or f is None) else f
+    f = fc[dkey]
+    if f is None:
+        R.skip("fix-of-plain-document-fails(C07/C15)")
+        return
+    sb.clear_files()
+    o2, f2 = app.fix_text(sb, doc2, only=ctx["allr"])
+    R.count("fix_pairs_compared")
+    if f != doc:
+        R.count("fix_pairs_where_fix_changes_the_document")
+    k2 = app.fix_error_kind(o2)
+    if k2 or f2 is None:
+        v.add(f"fix:{tag}:fix-fails-with-pragma:" + str(k2))
+        detail["fix_error"] = str(o2.errtext)[:600]
+        return
+    pset = set(plines)
+    l2 = f2.split("\n")
+    got = [x for x in l2 if x in pset or "pyml" in x]
+    bad = False
+    if got != plines:
+        bad = True
+        if sorted(got) == sorted(plines):
+            v.add("fix:pragma-lines-reordered")
+        elif len(got) < len(plines):
+            v.add("fix:pragma-line-lost-or-altered")
+        elif len(got) > len(plines):
+            v.add("fix:pragma-line-duplicated")
+        else:
+            v.add("fix:pragma-line-altered")
+    g = "\n".join(x for x in l2 if not (x in pset or "pyml" in x))
+    if g != f:
+        bad = True
+        d2l = doc2.split("\n")
+        while d2l and d2l[-1] == "":
+            d2l.pop()
+        last = ":pragma-is-last-line" if (d2l and d2l[-1] in pset) else ""
+        v.add("fix:rest-differs-from-fix-of-plain-document" + (last or (":same-lines-other-order" if sorted(g.split("\n")) == sorted(f.split("\n")) else "")))
+    elif not bad:
+        # attachment: the content line each pragma stood in front of
+        d2 = doc2.split("\n")
+        want = [_next_content(d2, j, pset) for j, x in enumerate(d2) if x in pset]
+        have = [_next_content(l2, j, pset) for j, x in enumerate(l2) if x in pset]
+        if want != have:
+            bad = True
+            v.add("fix:pragma-line-detached")
+    if bad:
+        detail["fixed_plain"] = f
+        detail["fixed_with_pragma"] = f2
+
+
+# ---------------------------------------------------------------------------------- family M
+def _rule_names(ctx, rule):
+    names, app = ctx["names"], ctx["app"]
+    if rule not in names:
+        o = app.invoke(["plugins", "info", rule])
+        m = re.search(r"Name\(s\)\s+(.*?)\n\s*Short Description", "".join(o.out), re.S)
+        names[rule] = [x for x in re.sub(r"\s+", "", m.group(1)).split(",") if x] if m else []
+    return names[rule]
+
+
+def _run_multi(ctx, R, key, ci):
+    app, pm, tok, allr = ctx["app"], ctx["pm"], ctx["tok"], ctx["allr"]
+    doc = case_doc(ci, PER_DOC_M)
+    R.evals += 1
+    if "pyml" in doc.lower() or doc == "":
+        R.skip("document-already-has-pragmas-or-empty")
+        return
+    kind, toks, _ = pm.parse(tok, doc, cpu_s=4)
+    if kind != "tokens":
+        R.skip("does-not-parse-or-scan(C01/C07)")
+        return
+    ob = app.scan_text(doc, only=allr)
+    if ob.watchdog or ob.plugin_error or ob.tokenization_error or (ob.err and "Error" in ob.errtext):
+        R.skip("does-not-parse-or-scan(C01/C07)")
+        return
+    base_fails = ob.fail_tuples()
+    lines = doc.split("\n")
+    r = PR(mix("C11M", ci))
+    variant = ci % PER_DOC_M
+    by_line = {}
+    for f in base_fails:
+        by_line.setdefault(f[0], set()).add(f[2].lower())
+    multi = sorted(ln for ln, rs in by_line.items() if len(rs) >= 2 and ln <= len(lines))
+    anyl = sorted(ln for ln in by_line if ln <= len(lines))
+
+    def ident(rule):
+        nm = _rule_names(ctx, rule)
+        x = r.choice(nm) if nm and r.chance(0.35) else rule
+        return x.upper() if r.chance(0.15) else x
+
+    def one(target_line):
+        """a pragma placed before original line target_line (1-based), naming rules failing there"""
+        rs = sorted(by_line.get(target_line, ()))
+        picked = list(rs)
+        r.shuffle(picked)
+        picked = picked[: r.randint(1, 3)] or [allr[r.below(len(allr))]]
+        if len(picked) < 2 and r.chance(0.6):
+            extra = allr[r.below(len(allr))]
+            if extra not in picked:
+                picked.insert(r.below(2), extra)
+        sep = r.choice([",", ",", ", ", " ,", " , "])
+        pre = "<!---" if r.chance(0.25) else "<!--"
+        if r.chance(0.7):
+            return (target_line - 1, 1, set(picked), f"{pre} pyml disable-next-line {sep.join(ident(x) for x in picked)}-->")
+        n = r.choice([1, 2, 3, 1000])
+        return (target_line - 1, n, set(picked), f"{pre} pyml disable-num-lines {n} {sep.join(ident(x) for x in picked)}-->")
+
+    def target():
+        pool = multi if (multi and r.chance(0.7)) else (anyl or [1])
+        return pool[r.below(len(pool))] if r.chance(0.85) else r.randint(1, len(lines))
+
+    if variant <= 1:
+        prs = [one(target())]
+    elif variant == 2:
+        t = target()
+        prs = [one(t), one(t)] + ([one(min(len(lines), t + r.randint(0, 2)))] if r.chance(0.4) else [])
+    else:
+        prs = [one(target()) for _ in range(r.randint(2, 3))]
+    prs.sort(key=lambda x: x[0])
+    # final document
+    out, pinfo, pi = [], [], 0
+    for j, x in enumerate(lines):
+        while pi < len(prs) and prs[pi][0] == j:
+            out.append(prs[pi][3])
+            pinfo.append((len(out), prs[pi][1], prs[pi][2]))  # (final line of pragma, n, rules)
+            pi += 1
+        out.append(x)
+    ks = [p[0] for p in prs]
+    shift = lambda ln: ln + sum(1 for k in ks if k < ln)  # noqa: E731
+    doc2 = "\n".join(out)
+    plines = [p[3] for p in prs]
+    tag = "multi"
+    v = set()
+    detail = {"case": f"M:{ci}", "doc": doc, "pragmas": plines, "doc_with_pragma": doc2}
+    kind2, toks2, _ = pm.parse(tok, doc2, cpu_s=4)
+    R.count("cases_compared")
+    if kind2 != "tokens":
+        v.add(f"{tag}:parse-fails-with-pragma")
+    else:
+        R.count("token_streams_compared")
+        a = []
+        for t in toks:
+            if t.token_name == "pragma":
+                continue
+            x = _tok_key(t)
+            ex = (shift(x[4][0]), x[4][1]) if x[4] else None
+            a.append((x[0], shift(x[1]) if x[1] else x[1], x[2], x[3], ex))
+        b = [_tok_key(t) for t in toks2 if t.token_name != "pragma"]
+        if not any(t.token_name == "pragma" for t in toks2):
+            v.add(f"{tag}:pragma-line-not-recognised")
+        elif a != b:
+            if [x[0] for x in a] != [x[0] for x in b]:
+                v.add(f"{tag}:token-kinds-differ")
+            elif [(x[0], x[3], x[4] is None) for x in a] != [(x[0], x[3], x[4] is None) for x in b]:
+                v.add(f"{tag}:token-content-differs")
+            else:
+                kinds = sorted({x[0] for x, y in zip(a, b) if x != y})
+                v.add(f"{tag}:positions-not-shifted:" + ("inline" if set(kinds) <= INLINE_KINDS else ",".join(kinds[:2])))
+            detail["tokens_expected"] = [str(x) for x in a][:40]
+            detail["tokens_got"] = [str(x) for x in b][:40]
+    o2 = app.scan_text(doc2, only=allr)
+    supp = 0
+    if o2.watchdog or o2.tokenization_error or o2.plugin_error:
+        if kind2 == "tokens":
+            v.add(f"{tag}:scan-fails-with-pragma")
+    else:
+        R.count("failure_sets_compared")
+        want = []
+        for (ln, col, rid, extra) in base_fails:
+            ln2 = shift(ln)
+            if any(rid.lower() in rules and pl + 1 <= ln2 <= pl + n for pl, n, rules in pinfo):
+                supp += 1
+                continue
+            want.append((ln2, col, rid, extra))
+        R.count("suppressions_expected", supp)
+        got = o2.fail_tuples()
+        if sorted(got) != sorted(want):
+            gs, ws = set(got), set(want)
+            missing, extra_ = ws - gs, gs - ws
+            rules = sorted({x[2] for x in missing | extra_})
+            cls = []
+            if missing:
+                cls.append("over-suppressed")
+            if any(any(x[2].lower() in rs and pl + 1 <= x[0] <= pl + n for pl, n, rs in pinfo) for x in extra_):
+                cls.append("not-suppressed")
+            elif extra_:
+                cls.append("new-or-moved-failure")
+            v.add(f"{tag}:failures:" + "+".join(cls) + ":" + (rules[0] if rules else "-"))
+            detail["failures_expected"] = sorted(want)[:12]
+            detail["failures_got"] = sorted(got)[:12]
+        if o2.pragma_errors:
+            v.add(f"{tag}:unexpected-pragma-error")
+            detail["pragma_errors"] = [(e[1], e[2]) for e in o2.pragma_errors]
+        if supp:
+            R.distinct.add(PL.mix("C11M", ci) & 0xFFFFFFFFFFFF)
+            if any(len(rs) > 1 for _, _, rs in pinfo):
+                R.count("multi_rule_pragmas_with_suppression")
+    if kind2 == "tokens":
+        _fix_clause(ctx, R, ("M", ci // PER_DOC_M), doc, doc2, plines, v, detail, tag)
+    R.see("pragma_forms", f"multi/{len(prs)}-pragmas" + ("/adjacent" if len(set(ks)) < len(ks) else ""))
+    if v:
+        R.viol.append([key, ";".join(sorted(v)), detail])
